@@ -94,10 +94,28 @@ Proof.
   destruct (seq_get_tree_same a b off S) as [(ta & tb & -> & -> & _)|(e & -> & ->)]; reflexivity.
 Qed.
 
+Lemma ins_bad_cols_c a b name cols vals : seq a b -> ins_bad_cols a name cols vals = ins_bad_cols b name cols vals.
+Proof.
+  intros S. unfold ins_bad_cols. rewrite (seq_rel_offset a b _ S), (seq_rel_schema a b _ S).
+  destruct (is_sys_table name); [reflexivity|].
+  destruct (rel_offset b name) as [off|e|]; cbn [bind]; try reflexivity.
+  destruct (seq_get_tree_same a b off S) as [(ta & tb & -> & -> & _)|(e & -> & ->)]; reflexivity.
+Qed.
+
+Lemma upd_bad_cols_c a b name cols : seq a b -> upd_bad_cols a name cols = upd_bad_cols b name cols.
+Proof.
+  intros S. unfold upd_bad_cols. rewrite (seq_rel_offset a b _ S), (seq_rel_schema a b _ S).
+  destruct (is_sys_table name); [reflexivity|].
+  destruct (rel_offset b name) as [off|e|]; cbn [bind]; try reflexivity.
+  destruct (seq_get_tree_same a b off S) as [(ta & tb & -> & -> & _)|(e & -> & ->)]; reflexivity.
+Qed.
+
 Lemma st_insert_c a b name cols vals : seqc a b ->
   res_rel (st_insert a name cols vals) (st_insert b name cols vals).
 Proof.
-  intros H. unfold st_insert. destruct (is_sys_table name); [apply res_rel_same; exact H|].
+  intros H. unfold st_insert. rewrite (ins_bad_cols_c a b name cols vals (sc_seq _ _ H)).
+  destruct (ins_bad_cols b name cols vals); [apply res_rel_same; exact H|]. unfold st_insert0.
+  destruct (is_sys_table name); [apply res_rel_same; exact H|].
   fold (ins_prelude a name cols vals). fold (ins_prelude b name cols vals).
   rewrite (ins_prelude_c a b name cols vals (sc_seq _ _ H)).
   destruct (ins_prelude b name cols vals) as [[off bs]|e|]; try (apply res_rel_same; exact H).
@@ -121,7 +139,9 @@ Qed.
 Lemma st_update_c a b name rowid cols vals : seqc a b ->
   res_rel (st_update a name rowid cols vals) (st_update b name rowid cols vals).
 Proof.
-  intros H. pose proof (sc_seq _ _ H) as S. unfold st_update. destruct (is_sys_table name); [apply res_rel_same; exact H|].
+  intros H. pose proof (sc_seq _ _ H) as S. unfold st_update. rewrite (upd_bad_cols_c a b name cols S).
+  destruct (upd_bad_cols b name cols); [apply res_rel_same; exact H|]. unfold st_update0.
+  destruct (is_sys_table name); [apply res_rel_same; exact H|].
   rewrite (seq_rel_offset a b _ S), (seq_rel_schema a b _ S).
   destruct (rel_offset b name) as [off|e|]; cbn [bind]; try (apply res_rel_same; exact H).
   destruct (seq_get_tree_same a b off S) as [(ta & tb & -> & -> & Et)|(e & -> & ->)]; cbn [bind]; [|apply res_rel_same; exact H].
